@@ -155,6 +155,21 @@ func Lock(m *sync.Mutex) {
 	held[m] = true
 }
 
+// LockQ is Lock without a scheduling point of its own (mutex-only instrumentation): a
+// free mutex is taken at once; a held one parks the thread until it is released.
+func LockQ(m *sync.Mutex) {
+	for held[m] {
+		if curThr == nil {
+			panic("vrt.Lock: mutex held with no other thread to release it")
+		}
+		curThr.waitMu = m
+		t := curThr
+		coSwitch(0)
+		t.waitMu = nil
+	}
+	held[m] = true
+}
+
 func Unlock(m *sync.Mutex) {
 	if !held[m] {
 		panic("sync: unlock of unlocked mutex")
